@@ -1528,7 +1528,8 @@ class Message(ABC):
             try:
                 value = getattr(self, field_name)
             except AttributeError:
-                value = self._get_field_default(field_name)
+                # an unselected member of a oneof group is not part of the message
+                continue
             cased_name = casing(field_name).rstrip("_")  # type: ignore
             if meta.proto_type == TYPE_MESSAGE:
                 if isinstance(value, datetime):
@@ -1835,7 +1836,8 @@ class Message(ABC):
             try:
                 value = getattr(self, field_name)
             except AttributeError:
-                value = self._get_field_default(field_name)
+                # an unselected member of a oneof group is not part of the message
+                continue
             cased_name = casing(field_name).rstrip("_")  # type: ignore
             if meta.proto_type == TYPE_MESSAGE:
                 if isinstance(value, datetime):
